@@ -170,6 +170,88 @@ pub fn gates_prefix<const NR: usize, const K: usize, const QFIN: bool>() {
     crate::witness!(true, "end reachable");
 }
 
+/// Builds the query word as ONE edit of the title word `r` (KIND 0 substitution by a different
+/// letter, 1 insertion, 2 deletion, 3 adjacent transposition) at a symbolic position.
+pub fn apply_edit<const N: usize, const NQ: usize, const KIND: u8>(r: &Txt<N, 1>, q: &mut Txt<NQ, 1>) {
+    match KIND {
+        0 => {
+            let p = nd::below(N);
+            let mut i = 0;
+            while i < N {
+                if i == p { nd::assume(q.chars[i] != r.chars[i] && letter(q.classes[i])); }
+                else { q.chars[i] = r.chars[i]; q.classes[i] = r.classes[i]; }
+                i += 1;
+            }
+        }
+        1 => {
+            let p = nd::below(NQ);
+            let mut i = 0;
+            while i < NQ {
+                if i < p { q.chars[i] = r.chars[i]; q.classes[i] = r.classes[i]; }
+                else if i == p { nd::assume(letter(q.classes[i])); }
+                else { q.chars[i] = r.chars[i - 1]; q.classes[i] = r.classes[i - 1]; }
+                i += 1;
+            }
+        }
+        2 => {
+            let p = nd::below(N);
+            let mut i = 0;
+            while i < NQ {
+                if i < p { q.chars[i] = r.chars[i]; q.classes[i] = r.classes[i]; }
+                else { q.chars[i] = r.chars[i + 1]; q.classes[i] = r.classes[i + 1]; }
+                i += 1;
+            }
+        }
+        _ => {
+            let p = nd::below(N - 1);
+            let mut i = 0;
+            while i < N {
+                let src = if i == p { p + 1 } else if i == p + 1 { p } else { i };
+                q.chars[i] = r.chars[src]; q.classes[i] = r.classes[src];
+                i += 1;
+            }
+        }
+    }
+}
+
+/// C04 at the pre-filter level: for a title word of N >= 5 letters (>= 3 distinct) and a finished
+/// query that is ONE edit of it, the real `length_check` and `jaccard_check` both accept.
+pub fn gates_typo<const N: usize, const NQ: usize, const KIND: u8>() {
+    let r = any_txt_stems::<N, 1>([(0, N)], [N], true);
+    nd::assume(distinct_at_least_3(&r.chars));
+    let mut i = 0;
+    while i < N { nd::assume(letter(r.classes[i])); i += 1; }
+    let mut q = any_txt_stems::<NQ, 1>([(0, NQ)], [NQ], true);
+    apply_edit::<N, NQ, KIND>(&r, &mut q);
+    let (rt, qt) = (r.text(), q.text());
+    let (rv, qv) = (rt.view(0), qt.view(0));
+    assert!(vh::length_check(&rv, &qv), "C04: length pre-filter rejects a single-typo query");
+    assert!(vh::jaccard_check(&rv, &qv), "C04: Jaccard pre-filter rejects a single-typo query");
+    crate::witness!(true, "end reachable");
+}
+
+/// C04 at the distance level: the weighted distance between a word of N letters and ONE edit of
+/// it is at most 1 and within the matcher's relative threshold 0.21 (N >= 5), whatever the classes.
+pub fn dist_typo<const N: usize, const NQ: usize, const KIND: u8>() {
+    use lucid_suggest_core::verif_hooks::DamerauLevenshtein;
+    let r = any_txt_stems::<N, 1>([(0, N)], [N], true);
+    let mut i = 0;
+    while i < N { nd::assume(letter(r.classes[i])); i += 1; }
+    let mut q = any_txt_stems::<NQ, 1>([(0, NQ)], [NQ], true);
+    apply_edit::<N, NQ, KIND>(&r, &mut q);
+    let (rt, qt) = (r.text(), q.text());
+    let (rv, qv) = (rt.view(0), qt.view(0));
+    let dl = DamerauLevenshtein::verif_with_capacity(if N > NQ { N } else { NQ });
+    let d = dl.distance(&qv, &rv);
+    let longest = if N > NQ { N } else { NQ };
+    assert!(d <= 1.0, "C04/C16: a single edit costs more than 1");
+    assert!(d / longest as f64 <= 0.21, "C04: a single edit in a word of five or more letters exceeds the relative typo threshold");
+    // the cell the matcher reads for the full pair is this distance
+    assert!(dl.dists.borrow().get(NQ + 1, N + 1) == d, "C16: matrix cell of the full pair differs from the returned distance");
+    crate::witness!(d > 0.0, "a non-zero distance is reachable");
+    std::mem::forget(dl);
+}
+
 fn same_pair(a: &Option<(WordMatch, WordMatch)>, b: &Option<(WordMatch, WordMatch)>) -> bool {
     match (a, b) {
         (None, None) => true,
@@ -243,6 +325,11 @@ cases! {
     wm_gate_5_1_u = gates_prefix::<5, 1, false>(); wm_gate_4_4_u = gates_prefix::<4, 4, false>(); wm_gate_5_5_u = gates_prefix::<5, 5, false>();
     wm_pre_3_3_1_1_u = prefix::<3, 3, 1, 1, false>(); wm_pre_3_2_1_1_u = prefix::<3, 2, 1, 1, false>(); wm_pre_3_3_1_2_u = prefix::<3, 3, 1, 2, false>();
     wm_pre_2_2_1_1_u = prefix::<2, 2, 1, 1, false>();
+    // gates_typo / dist_typo <N, NQ, KIND>
+    wm_gtypo_5_sub = gates_typo::<5, 5, 0>(); wm_gtypo_5_ins = gates_typo::<5, 6, 1>(); wm_gtypo_5_del = gates_typo::<5, 4, 2>(); wm_gtypo_5_tr = gates_typo::<5, 5, 3>();
+    wm_gtypo_6_sub = gates_typo::<6, 6, 0>(); wm_gtypo_6_ins = gates_typo::<6, 7, 1>(); wm_gtypo_6_del = gates_typo::<6, 5, 2>(); wm_gtypo_6_tr = gates_typo::<6, 6, 3>();
+    wm_dtypo_5_sub = dist_typo::<5, 5, 0>(); wm_dtypo_5_ins = dist_typo::<5, 6, 1>(); wm_dtypo_5_del = dist_typo::<5, 4, 2>(); wm_dtypo_5_tr = dist_typo::<5, 5, 3>();
+    wm_dtypo_6_sub = dist_typo::<6, 6, 0>(); wm_dtypo_6_del = dist_typo::<6, 5, 2>(); wm_dtypo_6_tr = dist_typo::<6, 6, 3>();
     // equal<N, SR, SQ>
     wm_eq_1 = equal::<1, 1, 1>(); wm_eq_2 = equal::<2, 2, 2>(); wm_eq_2_s1 = equal::<2, 1, 1>(); wm_eq_3 = equal::<3, 3, 3>(); wm_eq_3_s2 = equal::<3, 2, 2>();
     wm_eq_4 = equal::<4, 4, 4>(); wm_eq_4_s2 = equal::<4, 2, 3>(); wm_eq_5 = equal::<5, 5, 5>(); wm_eq_5_s3 = equal::<5, 3, 3>();
